@@ -60,6 +60,15 @@ def gen_spec(rng):
         else:
             own = list(times)
         controls.append({"name": "u%d" % i, "times": own})
+    recv = None
+    if n > 2 and rng.random() < 0.45:
+        # a control on a strictly coarser own grid that RECEIVES a delayed value (its value at the
+        # collocation times is interpolated; its nominal must still be applied)
+        inner = [t for t in times[1:-1] if rng.random() < 0.4]
+        if len(inner) == n - 2:
+            inner = inner[:-1]
+        recv = "ur0"
+        controls.append({"name": recv, "times": [times[0]] + inner + [times[-1]]})
     cins = []
     for i in range(rng.choice([0, 1, 1])):
         cts = [times[0] - 6.0] + [times[0] - 1.0] + list(times) if rng.random() < 0.6 else list(times)
@@ -77,9 +86,11 @@ def gen_spec(rng):
         params[1]["values"] = [params[1]["values"][0]] * E
     svn = states + algs + outs + [c["name"] for c in controls]
     nominal = {v: rng.choice([1.0, 1.0, 10.0, 0.5, 4.0]) for v in svn}
+    if recv:
+        nominal[recv] = rng.choice([10.0, 0.5, 4.0, 100.0])
     modes = {v: rng.choice([0, 0, 0, 1, 2]) for v in svn + [c["name"] for c in cins]}
     aliases = []
-    for v in states + outs:
+    for v in states + outs + ([recv] if recv else []):
         if rng.random() < 0.4:
             aliases.append({"name": "n" + v, "of": v, "sign": -1})
     # histories: kind per member is shared, values differ
@@ -106,7 +117,9 @@ def gen_spec(rng):
         history.append(hm)
     delays = []
     for i, out in enumerate(outs):
-        pool = srcs + [c["name"] for c in cins]
+        pool = [v for v in srcs if v != recv] + [c["name"] for c in cins]
+        if i == 0 and recv:
+            out = recv
         for _ in range(20):
             terms = {v: rng.choice([1.0, 2.0, -1.0, 0.5, -3.0, 1.5]) for v in rng.sample(pool, rng.randint(1, min(3, len(pool))))}
             const = rng.choice([0.0, 0.0, 1.0, -2.0])
@@ -144,7 +157,7 @@ def gen_spec(rng):
         delays.append({"expr": {"const": const, "terms": terms}, "out": outname, "tau": tau, "tau_kind": tk})
     return dict(times=times, E=E, states=states, algs=algs + outs, controls=controls, cins=cins, params=params,
                 aliases=aliases, nominal=nominal, modes=modes, history=history, path_vars=[], delays=delays,
-                dyn={"a": rng.choice([0.5, 1.0])}, hkind=hkind)
+                dyn={"a": rng.choice([0.5, 1.0])}, hkind=hkind, own_grid_receiver=bool(recv))
 
 
 # ---------------------------------------------------------------------------------------------
@@ -290,7 +303,7 @@ def oracle_delay(pr, info, m, results, d):
     else:
         ot, ov = out_t[start:], out_v[start:]  # earlier knots are never read (they may be NaN)
     oc, osign = info.canon(d["out"])
-    y = np.array(results[d["out"]], dtype=float)
+    y = on_grid(d["out"])  # interpolated to the collocation times when it lives on its own grid
     delayed = np_interp_mode(info.mode(oc), ot, ov, q)
     return y, delayed, incomplete, tv
 
@@ -447,6 +460,8 @@ def opt_judge(c, item, outs):
     c.hit("opt:tau-" + d["tau_kind"])
     c.hit("opt:hist-" + spec["hkind"])
     c.hit("opt:incomplete" if inc_o else "opt:complete")
+    if len(info.times(oc)) != n:
+        c.hit("opt:receiver-on-own-grid")
     c.sample({"times": spec["times"], "delay": d, "history": spec["history"][m] if spec["history"] else {}, "incomplete": inc_o}, limit=5)
     warned = len(item["warns"]) > 0
     # the warning is logged per (member, delay); count them over the whole transcription below
@@ -645,7 +660,8 @@ def run(c):
     logging.getLogger("rtctools").setLevel(logging.CRITICAL)
     c.rule = (
         "optimisation: synthetic problems (states, algebraic states, controls incl. coarser grids, constant inputs, "
-        "negated aliases, nominals, modes 0/1/2) with 1-2 delayed feedbacks y = delay(const + sum coef*var, tau); tau in "
+        "negated aliases, nominals, modes 0/1/2) with 1-2 delayed feedbacks (receiving variable: an algebraic state on the "
+        "collocation grid or a control on a coarser own grid with nominal != 1, also through a negated alias) y = delay(const + sum coef*var, tau); tau in "
         "{0, < dt, = a step, > dt, longer than the history, parameter-dependent (per member), input-dependent (time varying)}; "
         "histories none / one point / full / partial / different stamps per variable / NaN gaps; non-uniform grids, t0 != 0, "
         "E <= 2.  simulation: generated .mo models (two delays, one through a negated alias, tau = 0, < dt, integer and "
@@ -674,7 +690,7 @@ def run(c):
         if solve:
             # feasibility: one member, one free control without history, no history on algebraic
             # variables, a pinned initial derivative for at most one state
-            while spec["E"] != 1:
+            while spec["E"] != 1 or spec["own_grid_receiver"]:
                 spec = gen_spec(rng)
             keep = {}
             for v, h in spec["history"][0].items():
